@@ -50,6 +50,16 @@ def interp_error_features(msg, mo):
         op = sg.operators[idx]
         tin = [decode.TYPE_NAME.get(sg.tensors[int(i)].type) for i in op.inputs if int(i) >= 0]
         f['node_in_types'] = tin
+        # is the node's output range the 1e-4 floor (constant / all-zero calibration statistics)?
+        floor = False
+        for o in op.outputs:
+          t = sg.tensors[int(o)]
+          qp = decode.qparams(t)
+          if qp is not None and t.type in (models.TT.INT8, models.TT.INT16):
+            levels = 255 if t.type == models.TT.INT8 else 65535
+            if float(qp[0][0]) * levels <= 2.02e-4:
+              floor = True
+        f['node_out_range_is_floor'] = floor
         break
   return f
 
